@@ -300,6 +300,22 @@ def check_full_report(
                     stats.cells += 1
                     if not close(l[key], frac(value)):
                         out.append(_v("fullreport.balance-number", asset=asset, account=[l["ex"], l["ho"]], field=key, shown=l[key], computed=frac(value)))
+            # the same figures recomputed from the spreadsheet rows (independent of the tree's own balance replay), where the
+            # to-date cut is unambiguous; and the row identity final = acquired + received - sent
+            from rpv.checks.inproc_util import clean_cut
+
+            unambiguous = to_d is None or clean_cut({"rows": model.rows}, to_d)
+            for l in lines:
+                expected_line = expected_balances.get((l["ex"], l["ho"]))
+                values = {key: snap(l[key]) for key in ("acquired", "sent", "received", "final")}
+                if None not in values.values() and values["final"] != values["acquired"] + values["received"] - values["sent"]:
+                    out.append(_v("fullreport.balance-row-identity", asset=asset, account=[l["ex"], l["ho"]], shown={k: str(v) for k, v in values.items()}))
+                if unambiguous and expected_line is not None:
+                    for key in ("acquired", "sent", "received", "final"):
+                        stats.cells += 1
+                        if values[key] != expected_line[key]:
+                            out.append(_v("fullreport.balance-vs-input-rows", asset=asset, account=[l["ex"], l["ho"]], field=key, shown=str(l[key]), expected=str(expected_line[key])))
+                            break
             holders: Dict[str, Fraction] = {}
             for b in computed_balances.values():
                 holders[b.holder] = holders.get(b.holder, Fraction(0)) + frac(b.final_balance)
